@@ -30,7 +30,12 @@ CONSTANTS Parts,        \* partition names "topic/partition"
           Autos,        \* values of Consumer.Offsets.AutoCommit.Enable
           MaxFaults,    \* bound on non-ok partition results + connection failures
           Kinds,        \* per-partition result classes the coordinator may answer
-          ConnFaults,   \* connection failures enabled
+          ConnKinds,    \* connection faults the coordinator may inject instead of answering a commit:
+                        \* "before_fin" "before_rst" "after_fin" "after_rst": it read the request, did not / did apply
+                        \* it, and closes the connection gracefully (FIN, the client reads EOF) or resets it;
+                        \* "pre_fin" "pre_rst": it closed the idle connection before the request (the client finds
+                        \* out when it sends; the request is never seen). Same effect on the modelled state as
+                        \* "before"; the label steers the harness. {} = no connection faults
           FlightMarks,  \* "any": marks interleave with every step (model checking)
                         \* "window": marks only while idle or while the request is in flight
                         \* "none": marks only while idle (sequential behaviours)
@@ -165,14 +170,17 @@ Coord ==
           /\ refusedF' = [p \in Parts |-> IF closeSt = "final" /\ p \in DOMAIN req /\ ks[p] # "ok" THEN refusedF[p] + 1 ELSE refusedF[p]]
           /\ Step("coord", "-", 0, "", "none", SetSeq({<<p, ks[p]>> : p \in DOMAIN req}))
           /\ UNCHANGED cached
-     \/ \E applied \in BOOLEAN :     \* connection failure: CommitOffset returns an error
-          /\ ConnFaults /\ faults < MaxFaults /\ faults' = faults + 1
+     \/ \E c \in ConnKinds :     \* connection failure: CommitOffset returns an error
+          LET applied == c \in {"after_fin", "after_rst"} IN
+          \* "pre" faults are steerable only for Commit() and the first final attempt of Close
+          /\ (c \in {"pre_fin", "pre_rst"}) => (closeSt = "open" \/ attempt = 1)
+          /\ faults < MaxFaults /\ faults' = faults + 1
           /\ StoreApply(IF applied THEN DOMAIN req ELSE {})
           /\ resp' = <<>> /\ pc' = "after" /\ UNCHANGED todo
           /\ cached' = FALSE                                     \* releaseCoordinator + broker.Close
           /\ finalsOk' = IF closeSt = "final" THEN FALSE ELSE finalsOk
           /\ refusedF' = [p \in Parts |-> IF closeSt = "final" /\ p \in DOMAIN req /\ ~applied THEN refusedF[p] + 1 ELSE refusedF[p]]
-          /\ Step("coord", "-", 0, "", IF applied THEN "after" ELSE "before", <<>>)
+          /\ Step("coord", "-", 0, "", c, <<>>)
   /\ UNCHANGED <<pom, req, ops, commits, closeSt, attempt, auto, retryMax, marks, touched,
                  lowAfterSnap, reqLow, clearOk, init0, salt>>
 
